@@ -96,7 +96,11 @@ let o_ext (more : n list) : ext_result =
         let j = ref 5 in
         while !j < String.length rest && rest.[!j] >= '0' && rest.[!j] <= '9' do incr j done;
         if !j = 5 then Ext_einval
-        else let v = int_of_string (String.sub rest 5 (!j - 5)) in
+        else let v = (* strtoul saturates; the model only compares the value with limits that are far smaller, so cap it at OCaml's max_int *)
+               let d = String.sub rest 5 (!j - 5) in
+               let k = ref 0 in while !k < String.length d - 1 && d.[!k] = '0' do incr k done;
+               let d = String.sub d !k (String.length d - !k) in
+               if String.length d > 18 then max_int else int_of_string d in
           let ni = i + 1 + !j in
           if ni < n && s.[ni] <> ' ' then Ext_einval else go ni (0 :: seen) v (bonus + 26) dt
       end else if starts_with up "BODY=" then begin
